@@ -38,6 +38,14 @@ namespace sqf
             d_hashmap(std::unordered_map<sqf::runtime::value, sqf::runtime::value> map) : m_map(map) {}
 
             sqf::runtime::type type() const override { return data_type(); }
+            void contained(std::vector<std::shared_ptr<sqf::runtime::data>>& out) const override
+            {
+                for (auto& it : m_map)
+                {
+                    if (!it.first.empty()) { out.push_back(it.first.data()); }
+                    if (!it.second.empty()) { out.push_back(it.second.data()); }
+                }
+            }
             virtual std::size_t hash() const override
             {
                 // Equal maps have to hash equally, whatever order their entries are iterated in:
